@@ -102,6 +102,7 @@ EXTENDS Integers, Sequences, FiniteSets, TLC, Json, IOUtils, CSV, SequencesExt
 
 CONSTANTS MaxLen,     \* longest peer script
           ApiFilter,  \* set of API names to explore; {} = every row of the table
+          TmoOnly,    \* API names of which only the scripts that end in tmo are explored (quick tier)
           Design,     \* "extracted" | "repaired" | "keeptimer" (extracted + stateLoop keeps a fired timer)
           Emit        \* write cases.ndjson / outcomes.ndjson
 
@@ -149,7 +150,9 @@ Playable(A, s, i, k, u) ==
            [] OTHER         -> i = Len(s)       \* stall, muxerr, close
 
 Scripts(A) == {s \in UNION {[1..n -> Steps] : n \in 0..MaxLen} : Playable(A, s, 1, 1, FALSE)}
-CaseSpace == UNION {{[a |-> i, s |-> s] : s \in Scripts(Table.apis[i])} : i \in ApiIdx}
+EndsInTmo(s) == Len(s) > 0 /\ s[Len(s)] = "tmo"
+CaseSpace == UNION {{[a |-> i, s |-> s] : s \in {t \in Scripts(Table.apis[i]) : Table.apis[i].name \in TmoOnly => EndsInTmo(t)}}
+                    : i \in ApiIdx}
 
 --------------------------------------------------------------------------
 VARIABLES c,                 \* the case
@@ -183,7 +186,7 @@ vars == <<c, callV, mtx, g, protoV, peerV, inbox, bad, handV, buf, stopped, mux,
 A == Table.apis[c.a]
 N == NStages(A)
 \* the case is one in which the silence lasts until a state timeout fires; the silence has begun
-EndsTmo == Len(c.s) > 0 /\ c.s[Len(c.s)] = "tmo"
+EndsTmo == EndsInTmo(c.s)
 Late == EndsTmo /\ pi > Len(c.s)
 St(k) == A.stages[k]
 Rep(k, j) == St(k).replies[j]
